@@ -30,12 +30,12 @@ type IntT struct {
 // Q accumulates the definitional prelude of one function. It is monotone:
 // an obligation recorded at position p may use lines[:p] only.
 type Q struct {
-	lines   []string
-	n       int
-	intMode bool
-	consts  map[string]Sort // declared symbolic constants (for model extraction)
-	order   []string
-	usesUF  bool
+	lines      []string
+	n          int
+	intMode    bool
+	consts     map[string]Sort // declared symbolic constants (for model extraction)
+	order      []string
+	usesUF     bool
 	inlineDefs bool // inside a quantifier body: definitions may mention bound variables, so do not name them
 }
 
@@ -427,21 +427,96 @@ func (a Arith) bitop(q *Q, op string, t IntT, x, y string) string {
 		}
 		return a.lit(t, r)
 	}
-	// x & (2^k - 1)  ==  x mod 2^k  (unsigned or non-negative operand only when unsigned type)
-	if op == "&" && !t.Signed {
+	// one constant operand: exact integer arithmetic.
+	//   x & c  = sum over maximal runs [lo,hi) of set bits of c: ((x div 2^lo) mod 2^(hi-lo)) * 2^lo
+	//   x | c  = x + c - (x & c);  x ^ c = x + c - 2(x & c);  x &^ c = x - (x & c)
+	if okx || oky {
 		c, o := vy, x
-		if okx {
+		if okx && !oky {
 			c, o = vx, y
-		}
-		if okx || oky {
-			cc := new(big.Int).Add(c, big1)
-			if cc.BitLen() > 0 && new(big.Int).And(cc, c).Sign() == 0 { // c+1 power of two
-				return "(mod " + o + " " + cc.String() + ")"
+			if op == "&^" {
+				// c &^ y  = c - (c & y)
+				c, o = vx, y
 			}
-			if c.Sign() == 0 {
+		}
+		uc := new(big.Int).Mod(c, pow2(t.Bits))
+		uo := o
+		if t.Signed {
+			uo = "(mod " + o + " " + pow2(t.Bits).String() + ")"
+		}
+		andc := func() string {
+			var terms []string
+			i := 0
+			for i < t.Bits {
+				if uc.Bit(i) == 0 {
+					i++
+					continue
+				}
+				lo := i
+				for i < t.Bits && uc.Bit(i) == 1 {
+					i++
+				}
+				w := i - lo
+				tm := uo
+				if lo > 0 {
+					tm = "(div " + tm + " " + pow2(lo).String() + ")"
+				}
+				if i < t.Bits {
+					tm = "(mod " + tm + " " + pow2(w).String() + ")"
+				}
+				if lo > 0 {
+					tm = "(* " + tm + " " + pow2(lo).String() + ")"
+				}
+				terms = append(terms, tm)
+			}
+			switch len(terms) {
+			case 0:
 				return "0"
+			case 1:
+				return terms[0]
+			}
+			return "(+ " + strings.Join(terms, " ") + ")"
+		}()
+		var r string
+		switch op {
+		case "&":
+			r = andc
+		case "|":
+			r = "(- (+ " + uo + " " + uc.String() + ") " + andc + ")"
+		case "^":
+			r = "(- (+ " + uo + " " + uc.String() + ") (* 2 " + andc + "))"
+		case "&^":
+			if okx && !oky {
+				r = "(- " + uc.String() + " " + andc + ")"
+			} else {
+				r = "(- " + uo + " " + andc + ")"
 			}
 		}
+		if t.Signed {
+			return a.wrap(t, r)
+		}
+		return r
+	}
+	// both symbolic, narrow type: exact bit-sum expansion
+	if t.Bits <= 16 && !t.Signed {
+		var terms []string
+		for i := 0; i < t.Bits; i++ {
+			bx := "(mod (div " + x + " " + pow2(i).String() + ") 2)"
+			by := "(mod (div " + y + " " + pow2(i).String() + ") 2)"
+			var cnd string
+			switch op {
+			case "&":
+				cnd = "(and (= " + bx + " 1) (= " + by + " 1))"
+			case "|":
+				cnd = "(or (= " + bx + " 1) (= " + by + " 1))"
+			case "^":
+				cnd = "(not (= " + bx + " " + by + "))"
+			case "&^":
+				cnd = "(and (= " + bx + " 1) (= " + by + " 0))"
+			}
+			terms = append(terms, "(ite "+cnd+" "+pow2(i).String()+" 0)")
+		}
+		return "(+ " + strings.Join(terms, " ") + ")"
 	}
 	// fall back: uninterpreted with range axiom (sat answers not trusted)
 	name := map[string]string{"&": "uf_and", "|": "uf_or", "^": "uf_xor", "&^": "uf_andnot"}[op] + fmt.Sprint(t.Bits)
